@@ -10,6 +10,7 @@ let runners : (string * (string -> string list -> string list list -> (string ->
   ("C16", Drv_c16.run);
   ("C07", Drv_c07.run);
   ("C11", Drv_c11.run);
+  ("C05", Drv_c05.run);
 ]
 
 (* optional third argument: the harness output for the same cases (for models that need
